@@ -38,6 +38,7 @@ type c19Case struct {
 	Muts  []c19Mut `json:"muts"`
 	Valid bool     `json:"valid"`
 	Data  string   `json:"data"` // "intact" | "one" (one data file deleted)
+	Big   bool     `json:"big"`  // PAR2 world with a slice size of 4096 instead of 16
 }
 
 func valueOf(v string, f uint64, rem uint64) uint64 {
@@ -106,7 +107,9 @@ func c19Data() map[string][]byte {
 	return out
 }
 
-const c19S = 16
+// the PAR2 world's slice size: 16 by default, 4096 for the cases marked "big" (an allocation proportional to an
+// exponent or a count times the slice size only becomes visible with a slice size of some kilobytes)
+var c19S = 16
 
 // ---- PAR2 mutant builder -------------------------------------------------------------------
 
@@ -148,7 +151,7 @@ type p2variant struct {
 }
 
 func baseVariant(prot map[string][]byte) *p2variant {
-	v := &p2variant{sliceSize: c19S, remove: map[string]bool{}, dup: map[string]bool{}, recvExp: map[int]uint32{}, recvLen: -1}
+	v := &p2variant{sliceSize: uint64(c19S), remove: map[string]bool{}, dup: map[string]bool{}, recvExp: map[int]uint32{}, recvLen: -1}
 	for _, n := range c19Names {
 		d := prot[n]
 		v.files = append(v.files, &p2file{name: n, data: d, hash: md5.Sum(d), hash16k: refpar2.Hash16k(d), length: uint64(len(d)), fdName: n,
@@ -172,7 +175,7 @@ func (v *p2variant) apply(m c19Mut) {
 	nsl := uint64(len(f0.pairs))
 	switch m.Field {
 	case "main.slice_size":
-		v.sliceSize = valueOf(m.Value, c19S, 0)
+		v.sliceSize = valueOf(m.Value, uint64(c19S), 0)
 	case "main.slice_size_1pair":
 		v.sliceSize = valueOf(m.Value, 64, 0) // f+4 -> 68: larger than every file
 		for _, f := range v.files {
@@ -183,7 +186,7 @@ func (v *p2variant) apply(m c19Mut) {
 	case "main.nrecv":
 		v.nrecv = uint32(valueOf(m.Value, uint64(len(v.files)), 0))
 	case "fd.length":
-		f0.length = valueOf(m.Value, uint64(len(f0.data)), nsl*c19S)
+		f0.length = valueOf(m.Value, uint64(len(f0.data)), nsl*uint64(c19S))
 	case "ifsc.npairs":
 		switch m.Value {
 		case "0":
@@ -214,7 +217,7 @@ func (v *p2variant) apply(m c19Mut) {
 		v.recvExp[1] = 21845
 		v.recvExp[2] = 43690
 	case "recv.datalen":
-		v.recvLen = int(valueOf(m.Value, c19S, 0))
+		v.recvLen = int(valueOf(m.Value, uint64(c19S), 0))
 	case "fd.hash":
 		f0.hash[3] ^= 0x40
 	case "fd.hash16k":
@@ -555,6 +558,10 @@ func rssKB() int64 {
 }
 
 func runC19Case(dir string, cs c19Case, prot map[string][]byte, a1 *arch1) (tracelog.M, error) {
+	c19S = 16
+	if cs.Big {
+		c19S = 4096
+	}
 	if err := sandbox.Fresh(dir); err != nil {
 		return nil, err
 	}
@@ -597,7 +604,7 @@ func runC19Case(dir string, cs c19Case, prot map[string][]byte, a1 *arch1) (trac
 	}
 	declared := map[string]tracelog.M{}
 	present := 0
-	var declaredSlice uint64 = c19S
+	var declaredSlice uint64 = uint64(c19S)
 	nblocks := 0
 	var index string
 	if fmtName == "par2" {
@@ -766,10 +773,14 @@ func runC19Case(dir string, cs c19Case, prot map[string][]byte, a1 *arch1) (trac
 
 // declaredKBOf: the slice size a case declares (KiB, capped at 2^20), for cases that killed their worker
 func declaredKBOf(cs c19Case) int64 {
+	c19S = 16
+	if cs.Big {
+		c19S = 4096
+	}
 	kb := uint64(c19S) / 1024
 	for _, m := range cs.Muts {
 		if m.Field == "main.slice_size" || m.Field == "main.slice_size_1pair" {
-			kb = valueOf(m.Value, c19S, 0) / 1024
+			kb = valueOf(m.Value, uint64(c19S), 0) / 1024
 		}
 	}
 	if kb > 1<<20 {
